@@ -13,7 +13,7 @@ use palette::convert::{
 };
 use palette::white_point::D65;
 use palette::convert::IntoColorUnclamped;
-use palette::{Alpha, FromColor, IntoColor, Hsl, Hsv, Hwb, Lab, Lch, LinLuma, LinSrgb, Srgb, SrgbLuma, Xyz};
+use palette::{Alpha, FromColor, IntoColor, Hsl, Hsv, Hwb, Lab, Lch, LinLuma, LinSrgb, Okhsl, Okhsv, Oklab, Oklch, Srgb, SrgbLuma, Xyz};
 
 pub type Words = [u64; 4];
 
@@ -73,6 +73,25 @@ macro_rules! elem_f64x3 {
             #[inline]
             fn from_words(w: Words) -> Self {
                 let $a = [f64::from_bits(w[0]), f64::from_bits(w[1]), f64::from_bits(w[2])];
+                $mk
+            }
+        }
+    };
+}
+
+macro_rules! elem_f64x4 {
+    ($t:ty, $tag:expr, $name:literal, |$c:ident| [$a0:expr, $a1:expr, $a2:expr, $a3:expr], |$a:ident| $mk:expr) => {
+        impl Elem for $t {
+            const TAG: u8 = $tag;
+            const NAME: &'static str = $name;
+            #[inline]
+            fn to_words(&self) -> Words {
+                let $c = self;
+                [($a0 as f64).to_bits(), ($a1 as f64).to_bits(), ($a2 as f64).to_bits(), ($a3 as f64).to_bits()]
+            }
+            #[inline]
+            fn from_words(w: Words) -> Self {
+                let $a = [f64::from_bits(w[0]), f64::from_bits(w[1]), f64::from_bits(w[2]), f64::from_bits(w[3])];
                 $mk
             }
         }
@@ -201,6 +220,29 @@ elem_f32x1!(DLuma, 0, "SrgbLuma", |c| [c.luma], |a| SrgbLuma::new(a[0]));
 elem_f32x1!(DLin, 1, "LinLuma", |c| [c.luma], |a| LinLuma::new(a[0]));
 elem_f32x2!(ELumaa, 0, "SrgbLumaa", |c| [c.luma, c.alpha], |a| Alpha { color: SrgbLuma::new(a[0]), alpha: a[1] });
 elem_f32x2!(ELina, 1, "LinLumaa", |c| [c.luma, c.alpha], |a| Alpha { color: LinLuma::new(a[0]), alpha: a[1] });
+
+// ---- family F: [f64; 4], the Alpha wrappers of family B's non-hue members (f64 components and f64 alpha)
+pub type FSrgba = Alpha<BSrgb, f64>;
+pub type FLina = Alpha<BLin, f64>;
+pub type FXyza = Alpha<BXyz, f64>;
+pub type FLaba = Alpha<BLab, f64>;
+
+elem_f64x4!(FSrgba, 0, "Srgba<f64>", |c| [c.red, c.green, c.blue, c.alpha], |a| Alpha { color: Srgb::new(a[0], a[1], a[2]), alpha: a[3] });
+elem_f64x4!(FLina, 1, "LinSrgba<f64>", |c| [c.red, c.green, c.blue, c.alpha], |a| Alpha { color: LinSrgb::new(a[0], a[1], a[2]), alpha: a[3] });
+elem_f64x4!(FXyza, 2, "Xyza<f64>", |c| [c.x, c.y, c.z, c.alpha], |a| Alpha { color: Xyz::new(a[0], a[1], a[2]), alpha: a[3] });
+elem_f64x4!(FLaba, 3, "Laba<f64>", |c| [c.l, c.a, c.b, c.alpha], |a| Alpha { color: Lab::new(a[0], a[1], a[2]), alpha: a[3] });
+
+// ---- family G: [f32; 3] again, the Oklab-based types (their own conversion code: the Okhsv / Okhsl gamut
+// machinery, and a hue type of their own)
+pub type GOklab = Oklab<f32>;
+pub type GOklch = Oklch<f32>;
+pub type GOkhsv = Okhsv<f32>;
+pub type GOkhsl = Okhsl<f32>;
+
+elem_f32x3!(GOklab, 0, "Oklab", |c| [c.l, c.a, c.b], |a| Oklab::new(a[0], a[1], a[2]));
+elem_f32x3!(GOklch, 1, "Oklch", |c| [c.l, c.chroma, c.hue.into_raw_degrees()], |a| Oklch::new(a[0], a[1], a[2]));
+elem_f32x3!(GOkhsv, 2, "Okhsv", |c| [c.hue.into_raw_degrees(), c.saturation, c.value], |a| Okhsv::new(a[0], a[1], a[2]));
+elem_f32x3!(GOkhsl, 3, "Okhsl", |c| [c.hue.into_raw_degrees(), c.saturation, c.lightness], |a| Okhsl::new(a[0], a[1], a[2]));
 
 /// `$body` is expanded once with `$C` bound to the family member whose tag is `$tag`.
 macro_rules! dispatch {
@@ -513,22 +555,30 @@ for_pairs!(impl_node, [BSrgb, BLin, BXyz, BLab, BLch], [BSrgb, BLin, BXyz, BLab,
 for_pairs!(impl_node, [CSrgba, CHwba, CHsva, CHsla, CLaba], [CSrgba, CHwba, CHsva, CHsla, CLaba]);
 for_pairs!(impl_node, [DLuma, DLin], [DLuma, DLin]);
 for_pairs!(impl_node, [ELumaa, ELina], [ELumaa, ELina]);
+for_pairs!(impl_node, [FSrgba, FLina, FXyza, FLaba], [FSrgba, FLina, FXyza, FLaba]);
+for_pairs!(impl_node, [GOklab, GOklch, GOkhsv, GOkhsl], [GOklab, GOklch, GOkhsv, GOkhsl]);
 for_pairs!(impl_single, [DLuma, DLin], [DLuma, DLin]);
 for_pairs!(impl_single, [ELumaa, ELina], [ELumaa, ELina]);
 for_pairs!(impl_single, [BSrgb, BLin, BXyz, BLab, BLch], [BSrgb, BLin, BXyz, BLab, BLch]);
 for_pairs!(impl_single, [CSrgba, CHwba, CHsva, CHsla, CLaba], [CSrgba, CHwba, CHsva, CHsla, CLaba]);
+for_pairs!(impl_single, [FSrgba, FLina, FXyza, FLaba], [FSrgba, FLina, FXyza, FLaba]);
+for_pairs!(impl_single, [GOklab, GOklch, GOkhsv, GOkhsl], [GOklab, GOklch, GOkhsv, GOkhsl]);
 
 convert_table!(convert_a, [ASrgb, AHsv, AHsl, AHwb, ALab, ALch, AXyz]);
 convert_table!(convert_b, [BSrgb, BLin, BXyz, BLab, BLch]);
 convert_table!(convert_c, [CSrgba, CHwba, CHsva, CHsla, CLaba]);
 convert_table!(convert_d, [DLuma, DLin]);
 convert_table!(convert_e, [ELumaa, ELina]);
+convert_table!(convert_f, [FSrgba, FLina, FXyza, FLaba]);
+convert_table!(convert_g, [GOklab, GOklch, GOkhsv, GOkhsl]);
 
 pub const FAMILY_A: [&str; 7] = ["Srgb", "Hsv", "Hsl", "Hwb", "Lab", "Lch", "Xyz"];
 pub const FAMILY_B: [&str; 5] = ["Srgb<f64>", "LinSrgb<f64>", "Xyz<f64>", "Lab<f64>", "Lch<f64>"];
 pub const FAMILY_C: [&str; 5] = ["Srgba", "Hwba", "Hsva", "Hsla", "Laba"];
 pub const FAMILY_D: [&str; 2] = ["SrgbLuma", "LinLuma"];
 pub const FAMILY_E: [&str; 2] = ["SrgbLumaa", "LinLumaa"];
+pub const FAMILY_F: [&str; 4] = ["Srgba<f64>", "LinSrgba<f64>", "Xyza<f64>", "Laba<f64>"];
+pub const FAMILY_G: [&str; 4] = ["Oklab", "Oklch", "Okhsv", "Okhsl"];
 
 // ------------------------------------------------------------------ roots
 
@@ -759,8 +809,12 @@ buf_enum!(BufB, open_b, open_single_b, vecconv_b, readout_b, make_b, single: yes
 buf_enum!(BufC, open_c, open_single_c, vecconv_c, readout_c, make_c, single: yes, [CSrgba, CHwba, CHsva, CHsla, CLaba], [CSrgba, CHwba, CHsva, CHsla, CLaba]);
 buf_enum!(BufD, open_d, open_single_d, vecconv_d, readout_d, make_d, single: yes, [DLuma, DLin], [DLuma, DLin]);
 buf_enum!(BufE, open_e, open_single_e, vecconv_e, readout_e, make_e, single: yes, [ELumaa, ELina], [ELumaa, ELina]);
+buf_enum!(BufF, open_f, open_single_f, vecconv_f, readout_f, make_f, single: yes, [FSrgba, FLina, FXyza, FLaba], [FSrgba, FLina, FXyza, FLaba]);
+buf_enum!(BufG, open_g, open_single_g, vecconv_g, readout_g, make_g, single: yes, [GOklab, GOklch, GOkhsv, GOkhsl], [GOklab, GOklch, GOkhsv, GOkhsl]);
 replace_with_impl!(BufD, [DLuma, DLin]);
 replace_with_impl!(BufE, [ELumaa, ELina]);
 replace_with_impl!(BufA, [ASrgb, AHsv, AHsl, AHwb, ALab, ALch, AXyz]);
 replace_with_impl!(BufB, [BSrgb, BLin, BXyz, BLab, BLch]);
 replace_with_impl!(BufC, [CSrgba, CHwba, CHsva, CHsla, CLaba]);
+replace_with_impl!(BufF, [FSrgba, FLina, FXyza, FLaba]);
+replace_with_impl!(BufG, [GOklab, GOklch, GOkhsv, GOkhsl]);
